@@ -48,6 +48,12 @@ func GenerateNasEncDec() {
 		fmt.Fprintf(fOut, "func (a *Message) %sMessageDecode(byteArray *[]byte) error {\n", gmmGsm)
 		fmt.Fprintf(fOut, "buffer := bytes.NewBuffer(*byteArray)\n")
 		fmt.Fprintf(fOut, "a.%sMessage = New%sMessage()\n", gmmGsm, gmmGsm)
+		// a reused Message must not keep the body of the other family
+		if isGMM {
+			fmt.Fprintf(fOut, "a.GsmMessage = nil\n")
+		} else {
+			fmt.Fprintf(fOut, "a.GmmMessage = nil\n")
+		}
 		fmt.Fprintf(fOut, "if err := binary.Read(buffer, binary.BigEndian, &a.%sMessage.%sHeader); err != nil {\n",
 			gmmGsm, gmmGsm)
 		fmt.Fprintf(fOut, "return fmt.Errorf(\"%s NAS decode Fail: read fail - %%+v\", err)\n", strings.ToUpper(gmmGsm))
